@@ -181,6 +181,24 @@ func sigIs(sig *types.Signature, params, results []string) bool {
 	return true
 }
 
+// readsRouteField: fn loads the (exported) field of a Route.
+func readsRouteField(fn *ssa.Function, field string) bool {
+	found := false
+	for _, f := range withClosures(fn) {
+		eachInstr(f, func(i ssa.Instruction) {
+			if fa, ok := i.(*ssa.FieldAddr); ok && fieldOfAddr(fa).Name() == field && ownerOfFieldAddr(fa) == "Route" {
+				found = true
+			}
+			if fl, ok := i.(*ssa.Field); ok {
+				if st, ok := fl.X.Type().Underlying().(*types.Struct); ok && st.Field(fl.Field).Name() == field && isRestfulNamed(fl.X.Type(), "Route") {
+					found = true
+				}
+			}
+		})
+	}
+	return found
+}
+
 func callsPackage(fn *ssa.Function, pkgPath string) bool {
 	found := false
 	for _, f := range withClosures(fn) {
@@ -398,6 +416,16 @@ var roleSpecs = []roleSpec{
 	{"tokenizePath", func(p *Program) types.Object {
 		return p.funcWhere("", func(fn *ssa.Function, sig *types.Signature) bool {
 			return sigIs(sig, []string{"string"}, []string{"[]string"}) && callsPackage(fn, "strings")
+		})
+	}},
+	{"Route.matchesContentType", func(p *Program) types.Object {
+		return p.funcWhere("Route", func(fn *ssa.Function, sig *types.Signature) bool {
+			return sigIs(sig, []string{"string"}, []string{"bool"}) && readsRouteField(fn, "Consumes") && !readsRouteField(fn, "Produces")
+		})
+	}},
+	{"Route.matchesAccept", func(p *Program) types.Object {
+		return p.funcWhere("Route", func(fn *ssa.Function, sig *types.Signature) bool {
+			return sigIs(sig, []string{"string"}, []string{"bool"}) && readsRouteField(fn, "Produces") && !readsRouteField(fn, "Consumes")
 		})
 	}},
 	{"Container.computeAllowedMethods", func(p *Program) types.Object {
